@@ -432,7 +432,7 @@ class mp_dss_opt (mptcp_opt):
         o.dsn = struct.unpack_from("!I", buf, off)[0]
       else:
         o.dsn = struct.unpack_from("!Q", buf, off)[0]
-      off += o.ack_length
+      off += o.dsn_length
 
       o.seq,o.length,o.csum = struct.unpack_from("!IHH", buf, off)
       off += 4 + 2 + 2
